@@ -2668,6 +2668,12 @@ func (s *Server) serveConnCounted(c net.Conn, countConcurrency bool) error {
 			previousWriteTimeout = 0
 		}
 
+		if rs, ok := ctx.Request.bodyStream.(*requestStream); ok && !rs.fullyRead() {
+			// The handler left a part of the streamed request body unread,
+			// so the next request cannot be found on this connection.
+			connectionClose = true
+		}
+
 		connectionClose = connectionClose ||
 			(s.MaxRequestsPerConn > 0 && connRequestNum >= uint64(s.MaxRequestsPerConn)) || // #nosec G115
 			ctx.Response.Header.ConnectionClose() ||
